@@ -69,9 +69,9 @@ bool BlockingWorld::on_block_tcp(Conn &c, BlockWhat w) {
 		sr.conn = c.idx;
 		sr.seq = K.ev("srv %s read request %zu bytes", sr.is_ext ? "ext" : "aggr", fl);
 		parse_request(pdu, (sr.is_ext ? ext : aggr).key, sr.info);
-		if (!env.armed || env.fault == 3) { served.push_back(sr); K.count("fault.no_reply"); replied_ = true; return false; }
+		if (!env.armed || env.fault == 3) { served.push_back(sr); K.count("fault.no_reply"); fault_fired = true; replied_ = true; return false; }
 		if (env.reply_delay_ms > 0) {
-			if (c.rcvtimeo_s > 0 && env.reply_delay_ms >= c.rcvtimeo_s * 1000) { served.push_back(sr); K.count("fault.reply_too_late"); replied_ = true; return false; }
+			if (c.rcvtimeo_s > 0 && env.reply_delay_ms >= c.rcvtimeo_s * 1000) { served.push_back(sr); K.count("fault.reply_too_late"); fault_fired = true; replied_ = true; return false; }
 			K.advance(env.reply_delay_ms);
 		}
 		std::string bytes = make_reply(sr);
@@ -87,6 +87,7 @@ bool BlockingWorld::on_block_tcp(Conn &c, BlockWhat w) {
 		size_t k = env.fault_at > progress_ ? env.fault_at - progress_ : 0;
 		if (k) N.deliver(c, k);
 		progress_ += k;
+		fault_fired = true;
 		if (env.fault == 1) { N.srv_close(c); c.s2c_all.resize(c.s2c_arrived); N.deliver(c, 0); K.count("fault.close"); }
 		else { N.srv_reset(c); K.count("fault.reset"); }
 		return true;
@@ -108,12 +109,12 @@ bool BlockingWorld::on_block_http(Xfer &x) {
 		if (x.ep == pub_ep) {
 			pub_fetches++;
 			K.count("probe.pubfile_fetch");
-			if (!env.armed || env.fault == 3) return false;
-			C.respond(x, pub_http_code, pubfile_bytes);
+			if (!env.armed || env.fault == 3) { fault_fired = true; return false; }
+			C.respond(x, pub_http_code, pub_http_code == 200 ? pubfile_bytes : std::string("<html><body>not found</body></html>"));
 		} else {
 			if (served.empty() || served.back().xfer != x.idx) return false;
 			ServedRequest &sr = served.back();
-			if (!env.armed || env.fault == 3) { K.count("fault.no_reply"); return false; }
+			if (!env.armed || env.fault == 3) { K.count("fault.no_reply"); fault_fired = true; return false; }
 			if (env.reply_delay_ms > 0) K.advance(env.reply_delay_ms);
 			std::string bytes = make_reply(sr);
 			C.respond(x, env.http_code, bytes);
@@ -127,6 +128,7 @@ bool BlockingWorld::on_block_http(Xfer &x) {
 		size_t k = env.fault_at > progress_ ? env.fault_at - progress_ : 0;
 		if (k) C.deliver(x, k);
 		progress_ += k;
+		fault_fired = true;
 		if (env.fault == 1) { C.srv_close(x); K.count("fault.close"); } else { C.srv_reset(x); K.count("fault.reset"); }
 		return true;
 	}
